@@ -104,7 +104,7 @@ def effect(r):
     if k < 0.66:
         return '@p = pop("s")'
     if k < 0.76:
-        return f'print("{r.choice(["hello", "a line", "x=1; y=2", "two  blanks"])}")'
+        return f'print("{r.choice(["hello", "a line", "x=1; y=2", "two  blanks", "a=$.headers.a, n=$.headers.n;", "line $.csvpath.line_number: $.variables.cnt", "$.variables.v.k1|$.variables.s.length|$.csvpath.count_scans", "[$.headers.0] $.variables.t..", "$.csvpath.count_lines $.headers.b"])}")'
     if k < 0.84:
         return f'put("w", {value(r, 1)})'
     if k < 0.9:
